@@ -78,6 +78,12 @@ fn mk<'a>() -> Ctx<'a> {
 }
 
 /// One (x,y,d) triple on all three roundings, plain + checked.
+/// Checked variants are called directly (no contract frame): a host trap surfaces as a Rust panic of
+/// this process. A checked variant must answer None, never trap, so a trap is a finding, not a crash.
+fn guard<T>(f: impl FnOnce() -> T) -> Result<T, String> {
+    std::panic::catch_unwind(std::panic::AssertUnwindSafe(f)).map_err(|_| crate::last_panic())
+}
+
 fn check_triple(c: &Ctx, rep: &mut Report, x: i128, y: i128, d: i128, plain: bool) {
     let (bx, by, bd) = (BigInt::from(x), BigInt::from(y), BigInt::from(d));
     let prod_fits = x.checked_mul(y).is_some();
@@ -96,8 +102,17 @@ fn check_triple(c: &Ctx, rep: &mut Report, x: i128, y: i128, d: i128, plain: boo
         if !prod_fits && want.is_some() {
             rep.count("phantom_overflow_cases");
         }
-        let got_c = checked_mul_div_i128(&c.w.env, x, y, d, rounding(r));
+        let got_c = guard(|| checked_mul_div_i128(&c.w.env, x, y, d, rounding(r)));
         rep.evaluations += 1;
+        let got_c = match got_c {
+            Ok(v) => v,
+            Err(p) => {
+                rep.check("checked_i128", false, &format!("C12/diff/checked_mul_div_i128/{}/trapped-instead-of-answering", RN[r as usize]), || {
+                    format!("x={x} y={y} d={d} rounding={}: the checked variant trapped ({p}), exact result {want:?}", RN[r as usize])
+                });
+                continue;
+            }
+        };
         rep.check("checked_i128", got_c == want, &format!("C12/diff/checked_mul_div_i128/{}", RN[r as usize]), || {
             format!("x={x} y={y} d={d} rounding={} got={got_c:?} want={want:?}", RN[r as usize])
         });
@@ -228,16 +243,30 @@ fn check_wad(c: &Ctx, rep: &mut Report, a: i128, b: i128, plain: bool) {
     let (ba, bb) = (BigInt::from(a), BigInt::from(b));
     // checked_mul
     let want = trunc_div(&(&ba * &bb), &s);
-    let got = Wad::from_raw(a).checked_mul(e, Wad::from_raw(b)).map(|w| w.raw());
+    let got = guard(|| Wad::from_raw(a).checked_mul(e, Wad::from_raw(b)).map(|w| w.raw()));
     rep.evaluations += 1;
     rep.case(format!("wad_mul/{}/fits={}", sign_pat(&ba, &bb, &s), want.is_some()));
-    rep.check("wad_mul", got == want, "C12/diff/Wad::checked_mul", || format!("a={a} b={b} got={got:?} want={want:?}"));
+    match got {
+        Ok(got) => {
+            rep.check("wad_mul", got == want, "C12/diff/Wad::checked_mul", || format!("a={a} b={b} got={got:?} want={want:?}"));
+        }
+        Err(p) => {
+            rep.check("wad_mul", false, "C12/diff/Wad::checked_mul/trapped-instead-of-answering", || format!("a={a} b={b} trapped ({p}), want={want:?}"));
+        }
+    }
     // checked_div
     let want = trunc_div(&(&ba * &s), &bb);
-    let got = Wad::from_raw(a).checked_div(e, Wad::from_raw(b)).map(|w| w.raw());
+    let got = guard(|| Wad::from_raw(a).checked_div(e, Wad::from_raw(b)).map(|w| w.raw()));
     rep.evaluations += 1;
     rep.case(format!("wad_div/{}/fits={}", sign_pat(&ba, &s, &bb), want.is_some()));
-    rep.check("wad_div", got == want, "C12/diff/Wad::checked_div", || format!("a={a} b={b} got={got:?} want={want:?}"));
+    match got {
+        Ok(got) => {
+            rep.check("wad_div", got == want, "C12/diff/Wad::checked_div", || format!("a={a} b={b} got={got:?} want={want:?}"));
+        }
+        Err(p) => {
+            rep.check("wad_div", false, "C12/diff/Wad::checked_div/trapped-instead-of-answering", || format!("a={a} b={b} trapped ({p}), want={want:?}"));
+        }
+    }
     // from_ratio (panicking) through the wrapper
     if plain {
         let got = outcome(c.client.try_wad_from_ratio(&a, &b));
@@ -255,7 +284,13 @@ fn check_wad(c: &Ctx, rep: &mut Report, a: i128, b: i128, plain: bool) {
 
 fn check_pow(c: &Ctx, rep: &mut Report, x: i128, n: u32) {
     let e = &c.w.env;
-    let chk = Wad::from_raw(x).checked_pow(e, n).map(|w| w.raw());
+    let chk = match guard(|| Wad::from_raw(x).checked_pow(e, n).map(|w| w.raw())) {
+        Ok(v) => v,
+        Err(p) => {
+            rep.check("wad_pow_ref", false, "C12/diff/Wad::checked_pow/trapped-instead-of-answering", || format!("x={x} n={n} trapped ({p})"));
+            return;
+        }
+    };
     let plain = outcome(c.client.try_wad_pow(&x, &n));
     rep.evaluations += 2;
     let ok = match (&plain, chk) {
